@@ -1209,7 +1209,7 @@ pub fn one_run(w: &Work, seed: u64, idx: u64, stats: &mut Stats) -> u64 {
         let n = enumerate_base(seed, idx, &base, w.thorough || base.len() <= 256, &mut rng, stats);
         stats.add("c19.scenarios", n);
         stats.add("c19.scenarios.enumerated", n);
-        if stats.samples.len() < 2 && idx % 97 == 0 {
+        if idx % 97 == 0 && idx < 97 * 2 {
             stats.samples.push((
                 idx,
                 Json::obj()
@@ -1239,7 +1239,7 @@ pub fn one_run(w: &Work, seed: u64, idx: u64, stats: &mut Stats) -> u64 {
                 stats.add("c19.outcome.error_handled(parse_rejected)", log.errors_handled);
                 stats.add("c19.lookups.in_sequences", log.offsets + log.errors_handled);
                 h = log.hash;
-                if stats.samples.len() < 4 && idx2 % 1009 == 0 {
+                if idx2 % 1009 == 0 && idx2 < 1009 * 3 {
                     stats.samples.push((
                         idx,
                         Json::obj().set("family", Json::s("seeded fault sequence")).set(
@@ -1297,7 +1297,7 @@ pub fn one_run(w: &Work, seed: u64, idx: u64, stats: &mut Stats) -> u64 {
     if idx3 < n_footer_runs {
         for _ in 0..FOOTERS_PER_RUN {
             let foot = gen_hostile_footer(&mut rng, &w.footers);
-            if stats.samples.len() < 6 && idx3 % 131 == 0 {
+            if idx3 % 131 == 0 && idx3 < 131 * 2 && stats.samples.iter().filter(|(r, _)| *r == idx).count() < 2 {
                 stats.samples.push((idx, Json::obj().set("family", Json::s("hostile footer")).set("footer", Json::s(&String::from_utf8_lossy(&foot)))));
             }
             run_footer(foot, "F7-hostile-footer-grammar", &mut rng, stats);
